@@ -529,9 +529,85 @@ def gates_loc(prog, p):
     return f.loc() if f else None
 
 
+def _minus_guard_paths(prog, f, res, result_is_unary_agg, operand_keys_of):
+    """(bad_paths, total) over enumerated paths `res` of f.
+    result_is_unary_agg: only paths whose _0 is an Expression::UnaryOperator aggregate count (constructor form);
+    otherwise (helper form) every returning path counts and the guarded operand is the Expression parameter."""
+    uv = prog.variants("full_moon::ast::UnOp", "stylua_lib")
+    bad = total = 0
+    for st in res:
+        v0 = st.vals.get(0)
+        if result_is_unary_agg and not (v0 and v0[0] == "agg" and v0[2] == "UnaryOperator"):
+            continue
+        total += 1
+        hd = dict(st.hist)
+        hd.update(st.disc)
+        minus_possible = True
+        unop_tested = False
+        for k, v in hd.items():
+            is_unop = (isinstance(v, str) and v in uv) or (isinstance(v, tuple) and v[0] == "not" and (set(v[1]) & set(uv)))
+            if not is_unop or ".Parentheses." in k or k.endswith(".UnaryOperator.unop") and operand_keys_of(st, hd, k):
+                continue
+            unop_tested = True
+            if isinstance(v, str) and v != "Minus":
+                minus_possible = False
+            if isinstance(v, tuple) and "Minus" in v[1]:
+                minus_possible = False
+        if not minus_possible:
+            continue
+        opkeys = [k for k in hd if operand_keys_of(st, hd, k) and "." not in k]
+        if not (unop_tested and opkeys):
+            bad += 1
+            continue
+        for k in opkeys:
+            lead_minus = (hd.get(k) == "UnaryOperator" and hd.get(k + ".UnaryOperator.unop") == "Minus") or \
+                         (hd.get(k) == "Parentheses" and hd.get(k + ".Parentheses.expression") == "UnaryOperator"
+                          and hd.get(k + ".Parentheses.expression.UnaryOperator.unop") == "Minus")
+            if not lead_minus:
+                continue
+            wrapped = False
+            if not result_is_unary_agg:
+                wrapped = bool(v0 and v0[0] == "agg" and v0[1] == EXPR and v0[2] == "Parentheses")
+            else:
+                kind, _, num = k.partition(":")
+                if kind == "local":
+                    cur = st.vals.get(int(num))
+                elif kind == "call":
+                    cur = st.vals.get(f.blocks[int(num)]["term"]["dst"]["l"])
+                else:
+                    cur = None
+                wrapped = bool(cur and cur[0] == "agg" and cur[2] == "Parentheses")
+                if not wrapped:
+                    wrapped = any(v and v[0] == "agg" and v[1] == EXPR and v[2] == "Parentheses" and v[3] in st.trail
+                                  for v in st.vals.values())
+            if not wrapped:
+                bad += 1
+    return bad, total
+
+
+def _guard_helper(prog, g):
+    """is g(unop, expression) -> Expression a minus guard? returns (ok, reason)"""
+    ei = [i for i in range(1, g.argc + 1) if g.locals[i] in (EXPR, "&" + EXPR)]
+    ui = [i for i in range(1, g.argc + 1) if g.locals[i].endswith("full_moon::ast::UnOp")]
+    if not ei or not ui or g.locals[0] != EXPR:
+        return None
+    try:
+        res = ParamlessEnumerator(g).run()
+    except TooManyPaths:
+        return (False, "too many paths")
+    key = f"arg:{ei[0]}"
+    bad, total = _minus_guard_paths(prog, g, res, False, lambda st, hd, k: k == key or k.startswith(key + "."))
+    return (bad == 0 and total > 0, f"{bad} of {total} paths")
+
+
+class ParamlessEnumerator(Enumerator):
+    pass
+
+
 def _double_minus(prog, rep, cfg):
     """every constructor of Expression::UnaryOperator whose operand was produced by a parenthesis-removing
-    formatter tests the operand for a leading minus on the path where the operator is a minus."""
+    formatter tests the operand for a leading minus on the path where the operator is a minus and re-wraps it -
+    either inline or through a helper g(unop, expression) that does."""
     cf = ctx_fns(prog)
     n = 0
     for f in prog.fns("stylua_lib"):
@@ -541,14 +617,30 @@ def _double_minus(prog, rep, cfg):
                  s["rv"].get("adt") == EXPR and s["rv"].get("variant") == "UnaryOperator"]
         if not sites:
             continue
-        # operand produced by a formatter?
         relevant = False
+        helpers = set()
         for b, s in sites:
             for o in s["rv"]["ops"]:
-                pr = provenance(f, o)
-                if any(c in cf or c.endswith("::format_expression") or c.endswith("::hang_expression")
-                       for c in prov_calls(pr)):
-                    relevant = True
+                stack = [o]
+                seen = 0
+                while stack and seen < 8:
+                    oo = stack.pop()
+                    seen += 1
+                    pr = provenance(f, oo)
+                    for c in prov_calls(pr):
+                        if c in cf or c.endswith("::format_expression") or c.endswith("::hang_expression"):
+                            relevant = True
+                    for r in pr:
+                        if r[0] == "call":
+                            g = prog.fn("stylua_lib", r[1])
+                            if g is not None and g.locals[0] == EXPR and \
+                                    any(x.endswith("full_moon::ast::UnOp") for x in g.locals[1:g.argc + 1]) and \
+                                    any(x in (EXPR, "&" + EXPR) for x in g.locals[1:g.argc + 1]):
+                                helpers.add(g.path)
+                                t = f.blocks[r[2]]["term"]
+                                for a in t["args"]:
+                                    if not is_const(a) and f.local_ty(op_place(a)["l"]) in (EXPR, "&" + EXPR):
+                                        stack.append(a)
         if not relevant:
             continue
         n += 1
@@ -556,85 +648,33 @@ def _double_minus(prog, rep, cfg):
         if not ei:
             rep.anchor(False, f"{f.path}: builds a UnaryOperator from a formatted operand but has no Expression parameter", cfg)
             continue
-        ei = ei[0]
-        uv = prog.variants("full_moon::ast::UnOp", "stylua_lib")
+        if helpers:
+            allok = True
+            why = []
+            for hp in sorted(helpers):
+                r = _guard_helper(prog, prog.fn("stylua_lib", hp))
+                if r is None or not r[0]:
+                    allok = False
+                    why.append(f"{hp}: {r[1] if r else 'not a guard'}")
+            rep.inst(f"{f.key} unary-minus-guard", {"fn": f.key, "via_helper": sorted(helpers)}, cfg, ok=allok)
+            if not allok:
+                rep.violation(f"{f.key} unary-minus-guard-missing",
+                              f"{f.path} builds `unop operand` through {sorted(helpers)}, which does not re-wrap an operand "
+                              f"that starts with `-` when the operator is `-` ({why}): `- (-x)` is printed as `--x`", f.loc(), cfg)
+            continue
         try:
-            res = Enumerator(f, {f"arg:{ei}": "UnaryOperator"}).run()
+            res = Enumerator(f, {f"arg:{ei[0]}": "UnaryOperator"}).run()
         except TooManyPaths:
             rep.anchor(False, f"{f.path}: too many paths", cfg)
             continue
-        bad_paths = 0
-        total = 0
-        for st in res:
-            v0 = st.vals.get(0)
-            if not (v0 and v0[0] == "agg" and v0[2] == "UnaryOperator"):
-                continue
-            total += 1
-            # constraints ever taken on this path (a re-assigned operand local loses its live constraint)
-            hd = dict(st.hist)
-            hd.update(st.disc)
-
-            class _H:
-                pass
-            live_disc = st.disc
-            st_disc = hd
-            # is the operator known not to be Minus on this path?
-            minus_possible = True
-            unop_tested = False
-            for k, v in st_disc.items():
-                if k.endswith("UnaryOperator.unop") or (k.startswith("call:") and "." not in k):
-                    # a switch on an UnOp value (the original or the formatted one)
-                    pass
-            for k, v in st_disc.items():
-                enum_is_unop = False
-                # find enum of the key by looking at variants
-                if isinstance(v, str) and v in uv:
-                    enum_is_unop = True
-                if isinstance(v, tuple) and v[0] == "not" and (set(v[1]) & set(uv)):
-                    enum_is_unop = True
-                if enum_is_unop:
-                    unop_tested = True
-                    if isinstance(v, str) and v != "Minus":
-                        minus_possible = False
-                    if isinstance(v, tuple) and "Minus" in v[1]:
-                        minus_possible = False
-            if not minus_possible:
-                continue
-            # the formatted operand's discriminant must have been examined
-            opkeys = [k for k, v in st_disc.items() if _is_expr_disc(prog, f, k)]
-            operand_tested = bool(opkeys)
-            if not (unop_tested and operand_tested):
-                bad_paths += 1
-                continue
-            # ... and when it does start with a minus (`-x` or `(-x)`), the operand handed to the new node must have
-            # been re-wrapped in parentheses
-            for k in opkeys:
-                lead_minus = (st_disc.get(k) == "UnaryOperator" and st_disc.get(k + ".UnaryOperator.unop") == "Minus") or \
-                             (st_disc.get(k) == "Parentheses" and st_disc.get(k + ".Parentheses.expression") == "UnaryOperator"
-                              and st_disc.get(k + ".Parentheses.expression.UnaryOperator.unop") == "Minus")
-                if not lead_minus:
-                    continue
-                kind, _, num = k.partition(":")
-                if kind == "local":
-                    cur = st.vals.get(int(num))
-                else:
-                    t = f.blocks[int(num)]["term"]
-                    cur = st.vals.get(t["dst"]["l"])
-                wrapped = bool(cur and cur[0] == "agg" and cur[2] == "Parentheses")
-                if not wrapped:
-                    # the wrapped value may live in a fresh local: look at what is boxed into the new node
-                    wrapped = any(v and v[0] == "agg" and v[1] == EXPR and v[2] == "Parentheses" and
-                                  v[3] > 0 and f.dominates(v[3], st.trail[-1]) and v[3] in st.trail
-                                  for v in st.vals.values())
-                if not wrapped:
-                    bad_paths += 1
+        bad_paths, total = _minus_guard_paths(prog, f, res, True, lambda st, hd, k: _is_expr_disc(prog, f, k.split(".")[0]))
         ok = bad_paths == 0 and total > 0
         rep.inst(f"{f.key} unary-minus-guard", {"fn": f.key, "paths_building_unary": total}, cfg, ok=ok)
         if not ok:
             rep.violation(f"{f.key} unary-minus-guard-missing",
                           f"{f.path} builds `unop operand` from a formatted operand (parentheses may have been "
                           f"removed) without testing, when the operator is `-`, whether the operand now starts with "
-                          f"`-`: `- (-x)` is printed as `--x`, a comment ({bad_paths} of {total} paths)",
+                          f"`-` (and re-wrapping it): `- (-x)` is printed as `--x`, a comment ({bad_paths} of {total} paths)",
                           f.loc(), cfg)
     rep.floor("constructors of a unary operator from a formatted operand", n, 2, cfg)
 
